@@ -465,12 +465,22 @@ XMLUTF8Transcoder::transcodeTo( const   XMLCh* const    srcData
             if (srcPtr + 1 >= srcEnd)
                 break;
 
+            // Make sure the next one is a legal trailing surrogate
+            const XMLCh trailCh = *(srcPtr + 1);
+            if ((trailCh < 0xDC00) || (trailCh > 0xDFFF))
+                ThrowXMLwithMemMgr(TranscodingException, XMLExcepts::Trans_BadTrailingSurrogate, getMemoryManager());
+
             // Create the composite surrogate pair
             curVal = ((curVal - 0xD800) << 10)
-                    + ((*(srcPtr + 1) - 0xDC00) + 0x10000);
+                    + ((trailCh - 0xDC00) + 0x10000);
 
             // And indicate that we ate another one
             srcUsed++;
+        }
+        else if ((curVal >= 0xDC00) && (curVal <= 0xDFFF))
+        {
+            // A trailing surrogate without its leading surrogate
+            ThrowXMLwithMemMgr(TranscodingException, XMLExcepts::Trans_BadSrcSeq, getMemoryManager());
         }
 
         // Figure out how many bytes we need
